@@ -314,6 +314,7 @@ func genStream(r *rand.Rand, tier string, k int) streamSpec {
 			sp.Dir[d].Len = ibb.MaxBufferSize + 4096 + r.Intn(5000)
 			sp.Dir[d].LenClass = "beyond-default-buffer"
 			sp.Dir[d].Part = "random"
+			sp.Dir[d].ReadBuf = 4096
 			sp.Dir[d].Steps = genSteps(r, sp.Dir[d].Len, 4096, "random")
 			sp.Dir[d].NSteps = len(sp.Dir[d].Steps)
 			sp.Dir[d].StepsHead = sp.Dir[d].Steps[:min(24, len(sp.Dir[d].Steps))]
@@ -390,12 +391,19 @@ type reader struct {
 	err  error // the error that ended the loop (io.EOF for a clean end)
 	done chan struct{}
 	prog chan struct{} // signalled (non-blocking) on progress
+	gid  string        // the goroutine that reads
 }
 
 func (rd *reader) snapshot() ([]byte, error) {
 	rd.mu.Lock()
 	defer rd.mu.Unlock()
 	return append([]byte(nil), rd.got...), rd.err
+}
+
+func (rd *reader) goroutine() string {
+	rd.mu.Lock()
+	defer rd.mu.Unlock()
+	return rd.gid
 }
 
 func (rd *reader) count() int {
@@ -414,6 +422,9 @@ func startReaderAfter(gate <-chan struct{}, conn io.Reader, bufSize, delayUS int
 	rd := &reader{done: make(chan struct{}), prog: make(chan struct{}, 1)}
 	go func() {
 		defer close(rd.done)
+		rd.mu.Lock()
+		rd.gid = goroutineID()
+		rd.mu.Unlock()
 		if gate != nil {
 			<-gate
 		}
@@ -722,8 +733,15 @@ func runStream(c *core.Case, tc *transferCase, k int, p *libPair, disp map[strin
 		return true
 	}
 	// parkedReader applies the stall rule to this case's readers.
-	parkedReader := func(format string, a ...any) bool {
-		stuck := newParked(base, isReadFrame)
+	parkedReader := func(rd *reader, format string, a ...any) bool {
+		// only the reader in question: with two streams in one case the other
+		// stream's reader may rightly be waiting
+		var stuck []stall.Parked
+		for _, pk := range newParked(base, isReadFrame) {
+			if pk.ID == rd.goroutine() {
+				stuck = append(stuck, pk)
+			}
+		}
 		if len(stuck) == 0 {
 			return false
 		}
@@ -785,7 +803,11 @@ func runStream(c *core.Case, tc *transferCase, k int, p *libPair, disp map[strin
 				c.Violate("ibb:loss:sender", "stream %d (%s, block %d, partition %s): the %s side wrote and flushed %d bytes, only %d are in the data packets it sent", k, sp.Carrier, sp.Block, sp.Dir[other].Part, sideName[other], len(data[other]), len(wire))
 				return
 			}
-			if !parkedReader("the %s side flushed %d bytes and every packet was handled by the peer's serve loop, but the reader has %d", sideName[other], len(data[other]), rds[closer].count()) {
+			// (a reader that has meanwhile taken everything is rightly parked: it
+			// waits for more)
+			if rds[closer].waitCount(need, 0) {
+				// slow, not stuck
+			} else if !parkedReader(rds[closer], "the %s side flushed %d bytes and every packet was handled by the peer's serve loop, but the reader has %d", sideName[other], len(data[other]), rds[closer].count()) {
 				if !rds[closer].waitCount(need, hardLimit) {
 					undecided("the closing side's reader did not get the flushed bytes")
 					return
@@ -830,7 +852,7 @@ func runStream(c *core.Case, tc *transferCase, k int, p *libPair, disp map[strin
 	// The other side drains and reads EOF.
 	eofSeen := true
 	if !stall.WaitDone(rds[other].done, grace) {
-		if parkedReader("Close returned on the %s side, the peer's reader has %d of %d bytes and never reads EOF", sp.Closer, rds[other].count(), len(data[closer])) {
+		if parkedReader(rds[other], "Close returned on the %s side, the peer's reader has %d of %d bytes and never reads EOF", sp.Closer, rds[other].count(), len(data[closer])) {
 			eofSeen = false
 		} else {
 			switch await(rds[other].done, p.dead, hardLimit) {
